@@ -33,7 +33,7 @@ func init() {
 	// importing the underscore package makes every otto.New() load it; the
 	// check enables it only for the configurations that ask for it
 	underscore.Disable()
-	time.Local = time.FixedZone("VERIF", 5*3600+30*60)
+	time.Local = time.FixedZone("VST", 5*3600+30*60)
 }
 
 // Line is one line of spec/C14.tla.
@@ -64,6 +64,8 @@ func (l *Line) label() string {
 		return "object " + l.ID
 	case "row":
 		return "property " + l.Owner + " . " + l.Name
+	case "call":
+		return "call of " + l.ID + ": " + l.Call
 	}
 	return "for-in over " + l.Js
 }
@@ -113,8 +115,9 @@ type Config struct {
 
 type session struct {
 	cfg   Config
-	vm    *otto.Otto
-	lines []*Line
+	vm     *otto.Otto
+	lines  []*Line
+	panics []string
 }
 
 // open builds the runtime of a configuration and registers the objects of the table.
@@ -155,15 +158,60 @@ func open(cfg Config, lines []*Line) (s *session, err error) {
 }
 
 // observe evaluates one line; the result is the JSON text of the observation.
+// For an object line the facet "reflect" (Object.getOwnPropertyDescriptor
+// answers for every own name) is probed last: a Go panic escaping the runtime
+// is an observation ("go-panic"), after which the session is rebuilt.
 func (s *session) observe(l *Line) (out string, err error) {
+	out, err = s.call("OBSLINE", l.raw)
+	if err != nil && l.K == "call" && strings.HasPrefix(err.Error(), "GO PANIC") {
+		s.panics = append(s.panics, l.ID+" call: "+err.Error())
+		if e := s.rebuild(); e != nil {
+			return "", e
+		}
+		return `{"t":"go-panic"}`, nil
+	}
+	if err != nil || l.K != "obj" {
+		return out, err
+	}
+	var m map[string]any
+	if e := json.Unmarshal([]byte(out), &m); e != nil {
+		return "", fmt.Errorf("OBSLINE gave %q", out)
+	}
+	r, err := s.call("REFLECTALL", l.ID)
+	if err != nil {
+		if !strings.HasPrefix(err.Error(), "GO PANIC") {
+			return "", err
+		}
+		s.panics = append(s.panics, l.ID+": "+err.Error())
+		r = "go-panic"
+		if e := s.rebuild(); e != nil {
+			return "", e
+		}
+	}
+	m["reflect"] = r
+	b, _ := json.Marshal(m)
+	return string(b), nil
+}
+
+// rebuild replaces the runtime after a Go panic went through it.
+func (s *session) rebuild() error {
+	s2, err := open(s.cfg, s.lines)
+	if err != nil {
+		return err
+	}
+	s.vm = s2.vm
+	return nil
+}
+
+func (s *session) call(fn string, args ...any) (out string, err error) {
 	defer func() {
 		if r := recover(); r != nil {
 			out, err = "", fmt.Errorf("GO PANIC: %v", r)
 		}
 	}()
-	v, e := s.vm.Call("OBSLINE", nil, l.raw)
+	v, e := s.vm.Call(fn, nil, args...)
 	if e != nil {
-		return "", fmt.Errorf("OBSLINE failed: %v", e)
+		return "", fmt.Errorf("%s failed: %v", fn, e)
 	}
 	return v.String(), nil
 }
@@ -285,9 +333,8 @@ func Check(c *core.Ctx) (map[string]any, []string, error) {
 		switch l.K {
 		case "obj":
 			nObj++
-			if l.Call != "" {
-				nCall++
-			}
+		case "call":
+			nCall++
 		case "row":
 			nRow++
 		case "forin":
@@ -304,8 +351,9 @@ func Check(c *core.Ctx) (map[string]any, []string, error) {
 		t    tally
 		bad  []mismatch
 		err  error
-		dump string
-		xtra string
+		dump     string
+		dumpSkip bool
+		xtra     string
 	}
 	results := make([]result, len(cfgs))
 	var wg sync.WaitGroup
@@ -320,10 +368,10 @@ func Check(c *core.Ctx) (map[string]any, []string, error) {
 				return
 			}
 			r.bad = s.replay(c, &r.t)
-			r.xtra, _ = s.str("EXTRAS")
+			r.xtra = extrasOf(cfgs[i], lines)
 			if cfgs[i].Copy != "after" {
 				// the complete shape of everything reachable from the global object
-				r.dump, r.err = dumpOf(cfgs[i])
+				r.dump, r.dumpSkip, r.err = dumpOf(cfgs[i])
 			}
 		}(i)
 	}
@@ -415,8 +463,8 @@ func Check(c *core.Ctx) (map[string]any, []string, error) {
 
 	// 6. thorough: the judge direction
 	var judge map[string]any
-	if c.Thorough() || true {
-		judge, err = runJudge(c)
+	{
+		judge, err = runJudge(c, lines)
 		if err != nil {
 			return nil, nil, err
 		}
@@ -424,7 +472,7 @@ func Check(c *core.Ctx) (map[string]any, []string, error) {
 
 	var samples []any
 	for _, l := range lines {
-		if (l.K == "row" && l.Owner == "Math" && l.Name == "atan2") || (l.K == "obj" && l.ID == "Array.prototype.push") || (l.K == "forin" && l.ID == "i:string") {
+		if (l.K == "row" && l.Owner == "Math" && l.Name == "atan2") || (l.K == "call" && l.ID == "Array.prototype.push") || (l.K == "obj" && l.ID == "RegExp.prototype") || (l.K == "forin" && l.ID == "i:string") {
 			samples = append(samples, json.RawMessage(l.raw))
 		}
 	}
@@ -458,6 +506,22 @@ func Check(c *core.Ctx) (map[string]any, []string, error) {
 	return cov, assume, nil
 }
 
+// extrasOf lists what the implementation adds to the objects of the table
+// (informative; clause 16 allows additional properties).
+func extrasOf(cfg Config, lines []*Line) string {
+	s, err := open(cfg, lines)
+	if err != nil {
+		return "{}"
+	}
+	for _, l := range lines {
+		if l.K == "obj" {
+			s.call("OBSLINE", l.raw)
+		}
+	}
+	out, _ := s.call("EXTRAS")
+	return out
+}
+
 func firstDiff(a, b string) string {
 	la, lb := strings.Split(a, "\n"), strings.Split(b, "\n")
 	for i := 0; i < len(la) && i < len(lb); i++ {
@@ -470,17 +534,22 @@ func firstDiff(a, b string) string {
 
 // dumpOf builds another runtime of the configuration and dumps the complete
 // reachable shape before anything is registered.
-func dumpOf(cfg Config) (out string, err error) {
-	defer func() {
-		if r := recover(); r != nil {
-			err = fmt.Errorf("GO PANIC in shape dump of %s: %v", cfg.Name, r)
-		}
-	}()
+func dumpOf(cfg Config) (out string, skipped bool, err error) {
 	s, err := open(cfg, nil)
 	if err != nil {
-		return "", err
+		return "", false, err
 	}
-	return s.str("DUMP")
+	out, err = s.call("DUMP")
+	if err != nil && strings.HasPrefix(err.Error(), "GO PANIC") {
+		// Object.getOwnPropertyDescriptor panics on the internal accessors (finding
+		// D14_gopd_panics_on_internal_accessor): dump those two names without their descriptor
+		if s, err = open(cfg, nil); err != nil {
+			return "", false, err
+		}
+		out, err = s.call("DUMP", []string{"caller", "stack"})
+		return out, true, err
+	}
+	return out, false, err
 }
 
 // distinguishing: for every function f with a call and every other function g
@@ -492,32 +561,34 @@ func distinguishing(lines []*Line) (map[string]any, error) {
 	if err != nil {
 		return nil, err
 	}
+	owner := map[string]string{}
+	for _, l := range lines {
+		if l.K == "obj" && l.Vo != "" {
+			owner[l.ID] = l.Vo
+		}
+	}
 	byOwner := map[string][]*Line{}
 	for _, l := range lines {
-		if l.K == "obj" && l.Call != "" && l.Vo != "" {
-			byOwner[l.Vo] = append(byOwner[l.Vo], l)
+		if l.K == "call" && owner[l.ID] != "" {
+			byOwner[owner[l.ID]] = append(byOwner[owner[l.ID]], l)
 		}
 	}
 	pairs, collide := 0, []string{}
 	for _, fs := range byOwner {
 		for _, f := range fs {
-			var exp struct {
-				Call []json.RawMessage `json:"call"`
-			}
-			json.Unmarshal(f.Exp, &exp)
-			if len(exp.Call) != 1 {
-				continue
-			}
 			for _, g := range fs {
 				if g == f {
 					continue
 				}
 				pairs++
-				out, err := s.str("CALLON", g.ID, f.Call)
+				out, err := s.call("CALLON", g.ID, f.Call)
 				if err != nil {
+					if e := s.rebuild(); e != nil {
+						return nil, e
+					}
 					continue // a Go-level failure certainly differs
 				}
-				if same(out, exp.Call[0]) {
+				if same(out, f.Exp) {
 					collide = append(collide, f.ID+" ~ "+g.ID)
 				}
 			}
